@@ -22,8 +22,16 @@ PRELUDE = ('.const ca = 5\n.const cb = -3\n.const cw = $1234\n.const cz = 0\n.co
 POSTLUDE = ".const fa = fb + 1\n.const fb = fc\n.const fc = 7\n"
 
 
+WIDE_PRELUDE = ('.const wa = $FFFFFFFF\n.const wb = -$80000000\n.const wq = $100000001\n.const wx = $123456789A\n'
+                '.const wm = -$7FFFFFFFFFFFFFFF - 1\n.const wt = $7FFFFFFFFFFFFFFF\n')
+
+
 def render_num(t, rnd):
-    n, radix, lz = t["n"], t["radix"], t["lz"]
+    if t["tok"] == "wnum":      # magnitude as little-endian base-256 limbs (Wide.tla)
+        n = sum(b << (8 * i) for i, b in enumerate(t["d"]))
+    else:
+        n = t["n"]
+    radix, lz = t["radix"], t["lz"]
     if radix == "dec":
         return "0" * lz + str(n)
     if radix == "hex":
@@ -46,7 +54,7 @@ def render_tokens(toks, rnd):
     out = []
     for t in toks:
         k = t["tok"]
-        out.append(render_num(t, rnd) if k == "num" else render_str(t["parts"]) if k == "str" else t["s"])
+        out.append(render_num(t, rnd) if k in ("num", "wnum") else render_str(t["parts"]) if k == "str" else t["s"])
     # seeded whitespace between tokens; never between a unary flag/modifier and what follows is *required*, so plain joins are safe
     s = ""
     for i, tok in enumerate(out):
@@ -127,13 +135,64 @@ def main(tier):
     rep.cov["exhaustive"] = True
     for i in (1, len(cases) // 3, len(cases) // 2, len(cases) - 1):
         rep.sample({"program": meta[i]["src"], "ok": omap[i]["ok"], "bytes": recs[i - 1]["bytes"]})
-    rep.assumptions += ["values explored only inside +-2^30 (TLC integers are 32 bit) - narrower than the property's 64-bit domain",
+    rep.assumptions += ["Expr.tla's native-integer evaluator covers +-2^30; the 64-bit domain is decided by WideExpr.tla (limb arithmetic) on its own case domain; a result that does not fit a signed 64-bit integer is outside the property",
                         "truncating division; shifts and byte modifiers of negative values, division by zero are outside the property; shift counts of any size are judged for non-negative operands (accepted either way)",
                         "petscii/petscreen only over the unambiguous ASCII subset (digits, punctuation, lower-case letters)"]
     for v in verdicts:
         cid = v["id"]
         rep.verdict(v, {"program": meta[cid]["src"], "tree": meta[cid]["tree"], "observation": omap[cid], "judge": "spec/Expr/ExprTrace.tla", "why": v.get("why")})
+    wide_part(rep, tier, rnd, wd)
     return rep.finish()
+
+
+def wide_part(rep, tier, rnd, wd):
+    """The 64-bit domain: Wide.tla / WideExpr.tla (values as base-256 limbs), MC_Wide (agreement with Expr.tla on its whole case
+    domain, arithmetic laws on 64-bit values, export), WideTrace (judge of the stored bytes)."""
+    cfg = os.path.join(wd, "MC_Wide.cfg")
+    base = open(os.path.join(SPEC, "MC_Wide.cfg")).read()
+    with open(cfg, "w") as f:
+        f.write(base.replace("Deep = FALSE", "Deep = %s" % ("TRUE" if tier == "thorough" else "FALSE")))
+    out = os.path.join(wd, "wide-cases.ndjson")
+    if os.path.exists(out):
+        os.remove(out)
+    r = V.tlc_must_pass(os.path.join(SPEC, "MC_Wide.tla"), cfg=cfg, env={"OUT": out}, workers=8, timeout=2400, tag="C03-wide-mc", xmx="8g")
+    rep.add_tlc(r)
+    # vacuity is controlled inside the module (ASSUME NonVacuous: a failing assumption is a TLC error, hence a tool error here)
+    tcases = V.read_ndjson(out)
+    cases, meta = [], {}
+    for i, c in enumerate(tcases, 1):
+        text = render_tokens(c["toks"], rnd)
+        d = c["dir"]
+        stmt = ".text %s%s" % ((c["enc"] + " ") if c["enc"] else "", text) if d == "text" else ".%s %s" % (d, text)
+        src = PRELUDE.replace("lbl:\n", WIDE_PRELUDE + "lbl:\n") + stmt + "\n" + POSTLUDE
+        cases.append({"id": i, "files": {"main.asm": src}, "pc": 0x2000, "want": ["segments"]})
+        meta[i] = {"tree": c["tree"], "dir": d, "enc": c["enc"], "src": src, "expr": text}
+    V.log("[C03] %d 64-bit expression programs" % len(cases))
+    obs, p = V.run_harness("asmdrive", cases, "C03-wide-drive")
+    if len(obs) != len(cases):
+        raise V.ToolError("asmdrive produced %d of %d observations: %s" % (len(obs), len(cases), p.stderr[-2000:]))
+    recs, omap = [], {}
+    for o in obs:
+        m = meta[o["id"]]
+        omap[o["id"]] = o
+        segs = o.get("segments") or []
+        recs.append({"id": o["id"], "tree": m["tree"], "dir": m["dir"], "enc": m["enc"], "ok": o["ok"],
+                     "bytes": segs[0]["bytes"] if (o["ok"] and segs) else [],
+                     "ndiags": len(o["parse_diags"]) + len(o["diags"]) + (1 if o["panic"] else 0)})
+    verdicts, st = V.judge(os.path.join(SPEC, "WideTrace.tla"), recs, cfg=os.path.join(SPEC, "WideTrace.cfg"), tag="C03-wide-judge", batch=20000)
+    rep.add_stats(st)
+    rep.cov["traces_validated_against_impl"] += len(recs)
+    rep.cov["evaluations"] += len(cases)
+    rep.cov["wide_cases"] = len(cases)
+    rep.cov["wide_cases_built_ok"] = sum(1 for r_ in recs if r_["ok"])
+    rep.cov["rule"] += ("; 64-bit domain (Wide.tla, values as base-256 limbs): literals and constants around 2^31, 2^32, 2^40, 2^62 and both ends of the i64 range "
+                        "x all binary operators x all leaf pairs, flags, depth-2 trees, .byte/.word truncation, decimal interpolation; MC_Wide checks that the wide "
+                        "evaluator agrees with Expr.tla on Expr.tla's whole case domain")
+    i = len(cases) // 2
+    rep.sample({"program": meta[i]["src"], "ok": omap[i]["ok"], "bytes": recs[i - 1]["bytes"]})
+    for v in verdicts:
+        cid = v["id"]
+        rep.verdict(v, {"program": meta[cid]["src"], "tree": meta[cid]["tree"], "observation": omap[cid], "judge": "spec/Expr/WideTrace.tla", "why": v.get("why")})
 
 
 if __name__ == "__main__":
